@@ -1327,3 +1327,97 @@ def gated():
         b.ka(ci).adv(1)
         out.append(b.tag("collision", "gate").build())
     return out
+
+
+def api_races():
+    """C10/C20/C01: registry calls racing with a stop that is held open (a gated OnClose, or a listener whose
+    Close takes a while).  The racing calls are issued inside one multi step, with yields, and the gate is
+    released in the same step: the bubble cannot wait for a goroutine blocked on the server mutex."""
+    out = []
+    two = lambda **kw: [peer("p1", "10.0.0.2", **kw), peer("p2", "10.0.0.3", remoteAS=65003)]
+    Y = step("yield")
+
+    def relc(k=1):
+        return step("release", peer="p1", call="OnClose", w=k)
+
+    for d in DIRS:
+        # DeletePeer held in OnClose; AddPeer of the same peer must wait for it
+        b = Sb("race-del-add-%s" % d, two(gates=["OnClose#1"]))
+        b.add("addPeer", peer="p1").add("serve")
+        c = b.establish("p1", d)
+        b.steps.append(multi(step("deletePeer", peer="p1"), Y, step("addPeer", peer="p1"), Y, relc()))
+        b.adv(6)
+        c2 = b.connect("p1")
+        b.open(c2).ka(c2).adv(1)
+        out.append(b.tag("stop", "apirace").build())
+        # Close held in OnClose; AddPeer of another peer must not start it once Close is under way
+        b = Sb("race-close-add-%s" % d, two(gates=["OnClose#1"]))
+        b.add("addPeer", peer="p1").add("serve")
+        c = b.establish("p1", d)
+        b.steps.append(multi(step("close"), Y, step("addPeer", peer="p2"), Y, step("listPeers"), Y, relc()))
+        b.adv(6).add("getPeer", peer="p2").delete("p2")
+        out.append(b.tag("stop", "apirace").build())
+        # DeletePeer held; reads and a delete of the other peer wait for the lock
+        b = Sb("race-del-reads-%s" % d, two(gates=["OnClose#1"]))
+        b.start()
+        c = b.establish("p1", d)
+        b.steps.append(multi(step("deletePeer", peer="p1"), Y, step("getPeer", peer="p1"), step("listPeers"), Y,
+                             step("deletePeer", peer="p2"), Y, relc()))
+        b.adv(6).add("listPeers")
+        out.append(b.tag("stop", "apirace").build())
+    # a listener whose Close takes a while: the server is closing but still serving
+    for what in ("add", "add-del", "del", "add-conn"):
+        b = Sb("race-lisclose-%s" % what, two())
+        b.add("addPeer", peer="p1").add("serve").add("lisGate")
+        c = b.establish("p1", "in")
+        subs = [step("close"), Y]
+        if what.startswith("add"):
+            subs += [step("addPeer", peer="p2"), Y]
+        if what == "add-del":
+            subs += [step("deletePeer", peer="p2"), Y]
+        if what == "del":
+            subs += [step("deletePeer", peer="p1"), Y]
+        if what == "add-conn":
+            subs += [step("connect", conn="cx", src="10.0.0.3:40000", dst="10.0.0.1:179"), Y]
+        subs += [step("lisRelease")]
+        b.steps.append(multi(*subs))
+        b.adv(6).add("listPeers")
+        out.append(b.tag("stop", "apirace").build())
+    return out
+
+
+def trailing():
+    """C05/C08/C09: a message that makes the FSM leave its state, followed IN THE SAME BURST by more bytes (a
+    faulty header, a valid message, a partial header) while the remote keeps the connection open: the reader
+    is left holding something nobody will consume.  Then another peer establishes and Close must return."""
+    out = []
+    bad_marker = [0xFF] * 15 + [0x00, 0, 19, 4]
+    tails = {"badmarker": bad_marker, "badlen": [0xFF] * 16 + [0, 5, 4], "badtype": frame(9, []), "ka": keepalive(),
+             "upd": update([0, 0, 0, 0]), "partial": [0xFF] * 10, "notif": notification(6, 0), "two": keepalive() + bad_marker}
+    for st in STATES:
+        enders = {"notif": notification(3, 1), "cease": notification(6, 2), "hdr": [0] * 19}
+        if st == "openSent":
+            enders.update({"ka": keepalive(), "badopen": frame(1, open_body(65002, 1, ip4("10.0.0.2"))),
+                           "veto": open_msg(65002, 90, ip4("10.0.0.2"))})
+        elif st == "openConfirm":
+            enders.update({"upd": update([]), "open": open_msg(65002, 90, ip4("10.0.0.2"))})
+        else:
+            enders.update({"open": open_msg(65002, 90, ip4("10.0.0.2")), "handler": update([9])})
+        for en, eb in enders.items():
+            for tn, tb in tails.items():
+                for d in DIRS:
+                    if d == "out" and tn not in ("badmarker", "ka", "partial"):
+                        continue
+                    p1 = peer("p1", "10.0.0.2",
+                              openReply={"code": 2, "sub": 7, "data": [1]} if en == "veto" else None,
+                              handlerReplies={"1": {"code": 3, "sub": 1, "data": []}} if en == "handler" else None)
+                    b = Sb("trail-%s-%s-%s-%s" % (st, en, tn, d), [p1, peer("p2", "10.0.0.3", remoteAS=65003)])
+                    b.start()
+                    c = b.to_state(st, direction=d)
+                    b.send(c, eb + tb)
+                    b.adv(1)
+                    c2 = b.connect("p2")
+                    b.open(c2, "p2", rid="10.0.0.3").ka(c2).upd(c2)
+                    b.close()
+                    out.append(b.tag("fuzz", "trail").build())
+    return out
